@@ -1001,7 +1001,8 @@ def r8_pdb(ctx):
     wfn = ctx.py.func(rel, "PDBTrajectoryFile.write")
     q = "PDBTrajectoryFile.write / PdbStructure._load"
     # names longer than their columns (GLYX, HG211 / HG212: both written as HG21), a two-letter element, a chain without an id
-    spec = [("A", [("ALA", 5, [("N", "N"), ("CA", "C")]), ("GLYX", 6, [("C", "C"), ("HG211", "H"), ("HG212", "H")])]), ("", [("HOH", 1, [("O", "O")]), ("CL", 2, [("CL", "Cl")])])]
+    # ... and two consecutive residues that share a number and differ in name (SER 6 after GLYX 6)
+    spec = [("A", [("ALA", 5, [("N", "N"), ("CA", "C")]), ("GLYX", 6, [("C", "C"), ("HG211", "H"), ("HG212", "H")]), ("SER", 6, [("OG", "O")])]), ("", [("HOH", 1, [("O", "O")]), ("CL", 2, [("CL", "Cl")])])]
     L = [Rat(Poly.var("L%d" % k)) for k in range(3)]
     A = [Rat(Poly.var("A%d" % k)) for k in range(3)]
     for cell in (True, False):
@@ -1035,6 +1036,10 @@ def r8_pdb(ctx):
             k_ = next((i_ for i_, (g_, w_) in enumerate(zip(goti, wanti)) if g_ != w_), min(len(goti), len(wanti)))
             why.append("%d atoms in the topology read back, %d written; first difference at atom %d: %s / %s" % (len(goti), len(wanti), k_, goti[k_] if k_ < len(goti) else None, wanti[k_] if k_ < len(wanti) else None))
         ctx.decide(not why, "C01-R8", wfn, rel, q, "2 models x %d atoms in 2 chains: positions, atom / residue names, residue numbers, chain letters, elements come back (%s)" % (n_at, cdesc), "", "; ".join(why[:2]))
+        segs = [(rn_, rs_, sg_) for (rn_, rs_, sg_) in rec.get("residues", [])]
+        want_seg = [(r_[0][:3], r_[1], "SEG") for c_ in spec for r_ in c_[1]]
+        ctx.decide(segs == want_seg, "C01-R8", wfn, rel, q, "the segment id of every residue comes back (%s)" % cdesc, "",
+                   "residues (name, number, segment id) read back as %s, written %s" % ([x_ for x_, y_ in zip(segs, want_seg) if x_ != y_][:2] or segs[:3], [y_ for x_, y_ in zip(segs, want_seg) if x_ != y_][:2]))
         if cell:
             okc = isinstance(rec["lengths"], tuple) and isinstance(rec["angles"], tuple) and len(rec["lengths"]) == 3 and all(T.same_value(a_, b_) for a_, b_ in zip(rec["lengths"] + rec["angles"], L + A))
             ctx.decide(okc, "C01-R8", wfn, rel, q, "CRYST1: a, b, c, alpha, beta, gamma come back as written", "", "the loader reads the cell as %s / %s" % (rec["lengths"], rec["angles"]))
